@@ -1168,6 +1168,10 @@ pub mod oxidd_core {
     pub use super::Node;
 }
 
+/// `Function::as_edge(manager)` / `Function::from_edge(manager, e)`: a function handle is modelled by its root edge
+pub trait AsEdgeExt: Sized { fn as_edge<M>(&self, manager: &M) -> (r: &Self) ensures r == self { self } }
+impl<E: Edge> AsEdgeExt for E {}
+pub fn from_edge<M: Manager>(manager: &M, e: M::Edge) -> (r: M::Edge) ensures r.view() == e.view() { e }
 pub struct EdgeDropGuard<'a, M: Manager> { pub manager: &'a M, pub edge: M::Edge }
 impl<'a, M: Manager> EdgeDropGuard<'a, M> {
     pub fn new(manager: &'a M, edge: M::Edge) -> (r: Self) ensures r.edge.view() == edge.view() { EdgeDropGuard { manager, edge } }
@@ -1610,6 +1614,55 @@ where M: Manager<Terminal = ZBDDTerminal> + HasApplyCache<M, ZBDDOp> + HasZBDDCa
     ensures res is Ok ==> ok(res->Ok_0.view(), manager.num_levels_spec())
         && forall|env: Env| #[trigger] bsem(res->Ok_0.view(), manager.num_levels_spec(), env)
             == (if bsem(f.view(), manager.num_levels_spec(), env) { bsem(g.view(), manager.num_levels_spec(), env) } else { bsem(h.view(), manager.num_levels_spec(), env) }),
+//@end
+// ---------- default methods of BooleanVecSet in oxidd-core/src/function.rs (the user-facing API; rule R15) ----------
+//@fn file=crates/oxidd-core/src/function.rs path=trait:BooleanVecSet/fn:union rename=api_union selfcall=Self::> withmgr=this props=C09
+//@header
+fn api_union<M>(manager: &M, this: &M::Edge, rhs: &M::Edge) -> (res: AllocResult<M::Edge>)
+where M: Manager<Terminal = ZBDDTerminal> + HasApplyCache<M, ZBDDOp> + HasZBDDCache<M::Edge>, M::InnerNode: HasLevel,
+//@spec
+    requires edge_ok::<M::Edge>(), ok(this.view(), manager.num_levels_spec()), ok(rhs.view(), manager.num_levels_spec()),
+    ensures res is Ok ==> union_post(this.view(), rhs.view(), manager.num_levels_spec(), res->Ok_0.view()),
+//@end
+//@fn file=crates/oxidd-core/src/function.rs path=trait:BooleanVecSet/fn:intsec rename=api_intsec selfcall=Self::> withmgr=this props=C09
+//@header
+fn api_intsec<M>(manager: &M, this: &M::Edge, rhs: &M::Edge) -> (res: AllocResult<M::Edge>)
+where M: Manager<Terminal = ZBDDTerminal> + HasApplyCache<M, ZBDDOp> + HasZBDDCache<M::Edge>, M::InnerNode: HasLevel,
+//@spec
+    requires edge_ok::<M::Edge>(), ok(this.view(), manager.num_levels_spec()), ok(rhs.view(), manager.num_levels_spec()),
+    ensures res is Ok ==> intsec_post(this.view(), rhs.view(), manager.num_levels_spec(), res->Ok_0.view()),
+//@end
+//@fn file=crates/oxidd-core/src/function.rs path=trait:BooleanVecSet/fn:diff rename=api_diff selfcall=Self::> withmgr=this props=C09
+//@header
+fn api_diff<M>(manager: &M, this: &M::Edge, rhs: &M::Edge) -> (res: AllocResult<M::Edge>)
+where M: Manager<Terminal = ZBDDTerminal> + HasApplyCache<M, ZBDDOp> + HasZBDDCache<M::Edge>, M::InnerNode: HasLevel,
+//@spec
+    requires edge_ok::<M::Edge>(), ok(this.view(), manager.num_levels_spec()), ok(rhs.view(), manager.num_levels_spec()),
+    ensures res is Ok ==> diff_post(this.view(), rhs.view(), manager.num_levels_spec(), res->Ok_0.view()),
+//@end
+//@fn file=crates/oxidd-core/src/function.rs path=trait:BooleanVecSet/fn:subset0 rename=api_subset0 selfcall=Self::> withmgr=this props=C09
+//@header
+fn api_subset0<M>(manager: &M, this: &M::Edge, var: VarNo) -> (res: AllocResult<M::Edge>)
+where M: Manager<Terminal = ZBDDTerminal> + HasApplyCache<M, ZBDDOp> + HasZBDDCache<M::Edge>, M::InnerNode: HasLevel,
+//@spec
+    requires edge_ok::<M::Edge>(), ok(this.view(), manager.num_levels_spec()), (var as int) < manager.num_levels_spec(),
+    ensures res is Ok ==> subset0_post(this.view(), manager.var_to_level_spec(var as int), manager.num_levels_spec(), res->Ok_0.view()),
+//@end
+//@fn file=crates/oxidd-core/src/function.rs path=trait:BooleanVecSet/fn:subset1 rename=api_subset1 selfcall=Self::> withmgr=this props=C09
+//@header
+fn api_subset1<M>(manager: &M, this: &M::Edge, var: VarNo) -> (res: AllocResult<M::Edge>)
+where M: Manager<Terminal = ZBDDTerminal> + HasApplyCache<M, ZBDDOp> + HasZBDDCache<M::Edge>, M::InnerNode: HasLevel,
+//@spec
+    requires edge_ok::<M::Edge>(), ok(this.view(), manager.num_levels_spec()), (var as int) < manager.num_levels_spec(),
+    ensures res is Ok ==> subset1_post(this.view(), manager.var_to_level_spec(var as int), manager.num_levels_spec(), res->Ok_0.view()),
+//@end
+//@fn file=crates/oxidd-core/src/function.rs path=trait:BooleanVecSet/fn:change rename=api_change selfcall=Self::> withmgr=this props=C09
+//@header
+fn api_change<M>(manager: &M, this: &M::Edge, var: VarNo) -> (res: AllocResult<M::Edge>)
+where M: Manager<Terminal = ZBDDTerminal> + HasApplyCache<M, ZBDDOp> + HasZBDDCache<M::Edge>, M::InnerNode: HasLevel,
+//@spec
+    requires edge_ok::<M::Edge>(), ok(this.view(), manager.num_levels_spec()), (var as int) < manager.num_levels_spec(),
+    ensures res is Ok ==> change_post(this.view(), manager.var_to_level_spec(var as int), manager.num_levels_spec(), res->Ok_0.view()),
 //@end
 } // mod apply_rec_w
 pub mod apply_rec_r {
